@@ -136,15 +136,20 @@ Proof.
   - rewrite orb_true_iff. tauto.
 Qed.
 
+Lemma sat_of_spec p k : sat_of p k = true <-> In k (p_sat p) \/ In k (p_forced p).
+Proof. unfold sat_of. rewrite orb_true_iff, !mem_key_In. tauto. Qed.
+
 Lemma prereqs_ok_mono i p p' :
-  (forall k, In k (p_sat p) -> In k (p_sat p')) -> prereqs_ok i p = true -> prereqs_ok i p' = true.
+  (forall k, In k (p_sat p) -> In k (p_sat p')) ->
+  (forall k, In k (p_forced p) -> In k (p_forced p')) ->
+  prereqs_ok i p = true -> prereqs_ok i p' = true.
 Proof.
-  unfold prereqs_ok. rewrite !forallb_forall. intros Hs H e He.
+  unfold prereqs_ok. rewrite !forallb_forall. intros Hs Hf H e He.
   eapply bx_eval_mono; [|apply H; exact He].
-  unfold sat_of. intros k. rewrite !mem_key_In. auto.
+  intros k. rewrite !sat_of_spec. intros [Hk|Hk]; auto.
 Qed.
-Lemma prereqs_ok_ext i p p' : p_sat p = p_sat p' -> prereqs_ok i p = prereqs_ok i p'.
-Proof. unfold prereqs_ok, sat_of. intros ->. reflexivity. Qed.
+Lemma prereqs_ok_ext i p p' : p_sat p = p_sat p' -> p_forced p = p_forced p' -> prereqs_ok i p = prereqs_ok i p'.
+Proof. unfold prereqs_ok, sat_of. intros -> ->. reflexivity. Qed.
 
 (* ------------------------------------------------------------------ *)
 (* accepted traces                                                      *)
@@ -328,15 +333,14 @@ Proof.
 Qed.
 
 (* replacing one tracked task by an updated copy *)
-Lemma Inv_store c s t p inp p' :
-  Inv c s -> lookup s t = Some (p, inp) -> p_id p' = p_id p ->
+Lemma Inv_store_in c s p (inp : bool) p' :
+  Inv c s -> (if inp then In p (pool s) else In p (limbo s)) -> p_id p' = p_id p ->
   (forall k, In k (p_sat p') -> In k (done s)) ->
   (forall i, find_inst (c_insts c) (p_id p) = Some i -> needs_ok p' = true ->
              p_manual p' = true \/ prereqs_ok i p' = true) ->
   Inv c (store s p' inp).
 Proof.
-  intros [I1 I2 I3 I4 I5 I6 I7] Hl Hid Hsat Hok.
-  apply lookup_spec in Hl. destruct Hl as [Hpid Hin].
+  intros [I1 I2 I3 I4 I5 I6 I7] Hin Hid Hsat Hok.
   assert (Htp : tracked s p) by (destruct inp; [now left|now right]).
   constructor.
   - rewrite store_pool_ids. exact I1.
@@ -349,6 +353,16 @@ Proof.
     + eapply I5; eauto.
   - rewrite store_subs. exact I6.
   - rewrite store_saved, store_done. exact I7.
+Qed.
+
+Lemma Inv_store c s t p inp p' :
+  Inv c s -> lookup s t = Some (p, inp) -> p_id p' = p_id p ->
+  (forall k, In k (p_sat p') -> In k (done s)) ->
+  (forall i, find_inst (c_insts c) (p_id p) = Some i -> needs_ok p' = true ->
+             p_manual p' = true \/ prereqs_ok i p' = true) ->
+  Inv c (store s p' inp).
+Proof.
+  intros I Hl. apply lookup_spec in Hl. destruct Hl as [_ Hin]. eapply Inv_store_in; eauto.
 Qed.
 
 Lemma Inv_with_done c s l :
@@ -389,7 +403,7 @@ Proof.
     destruct I as [_ _ I3 _ _ _ _]. eapply I3; eauto.
   - intros i0 Hi0 Hn. cbn in Hn. destruct I as [_ _ _ _ I5 _ _].
     destruct (I5 p i0 Htp Hi0 Hn) as [Hm|Hp]; [left; exact Hm|right].
-    eapply prereqs_ok_mono; [|exact Hp]. cbn. intros k Hk. apply in_or_app. now right.
+    eapply prereqs_ok_mono; [| |exact Hp]; cbn; [intros k Hk; apply in_or_app; now right|auto].
 Qed.
 
 Lemma Inv_output c s t o s' : Inv c s -> step c s (EOutput t o) = Ok s' -> Inv c s'.
@@ -413,10 +427,12 @@ Lemma Inv_state c s t st h q r s' : Inv c s -> step c s (EState t st h q r) = Ok
 Proof.
   intros I H. cbn [step] in H.
   destruct (lookup s t) as [[p inp]|] eqn:El;
-    [|injection H as <-; exact I].
+    [|destruct h; injection H as <-; [now apply Inv_add_hold|exact I]].
   destruct (find_inst (c_insts c) t) as [i|] eqn:Ei; [|discriminate].
-  destruct (negb (status_eqb st (p_status p)) && negb (trans_ok p (p_status p) st)) eqn:E1; [discriminate|].
-  destruct (q && negb (p_queued p) && negb (ready i (set_flags p h false r))) eqn:E2; [discriminate|].
+  destruct (negb (status_eqb st (p_status p)) && negb (trans_ok p (p_status p) st) && negb (p_manual p)) eqn:E1;
+    [discriminate|].
+  destruct (q && negb (p_queued p) && negb (ready i (set_flags p h false r)) && negb (p_manual p)) eqn:E2;
+    [discriminate|].
   destruct (negb r && p_runahead p && negb (within_limit s p) && negb (p_manual p) && negb (is_final (p_status p))) eqn:E3;
     [discriminate|].
   destruct (status_eqb st Preparing && negb (status_eqb (p_status p) Preparing) && p_held p && negb (p_manual p)) eqn:E4;
@@ -443,6 +459,7 @@ Proof.
     rewrite (prereqs_ok_ext i _ p) by reflexivity.
     (* case analysis on why the new record needs its prerequisites *)
     destruct (p_manual p) eqn:Em; [now left|right].
+    rewrite ?Em in E1, E2. cbn [negb] in E1, E2. rewrite !andb_true_r in E1, E2.
     destruct (needs_ok p) eqn:Eo; [destruct (Hold eq_refl) as [Hx|Hx]; [discriminate|exact Hx]|].
     (* the old record did not need it: so it was waiting/expired, not queued, not released *)
     unfold needs_ok in Eo, Hn. cbn [p_status p_queued p_rel set_flags set_status] in Hn.
@@ -461,7 +478,7 @@ Proof.
       (* old status is Waiting or Expired *)
       destruct (p_status p) eqn:Eps; cbn in Est; try discriminate.
       * (* Waiting -> st *) destruct st; cbn in Hw, He, E1; try discriminate;
-          rewrite Erel, Em in E1; cbn in E1; discriminate.
+          rewrite ?Erel, ?Em in E1; cbn in E1; discriminate.
       * (* Expired -> st *) destruct st; cbn in Hw, He, E1; discriminate.
 Qed.
 
@@ -483,6 +500,7 @@ Proof.
   assert (Hid : forall p, p_id (f p) = p_id p) by (intros p; unfold f; destruct (mem tid_eqb (p_id p) l); reflexivity).
   assert (Hsat : forall p, p_sat (f p) = p_sat p) by (intros p; unfold f; destruct (mem tid_eqb (p_id p) l); reflexivity).
   assert (Hman : forall p, p_manual (f p) = p_manual p) by (intros p; unfold f; destruct (mem tid_eqb (p_id p) l); reflexivity).
+  assert (Hfor : forall p, p_forced (f p) = p_forced p) by (intros p; unfold f; destruct (mem tid_eqb (p_id p) l); reflexivity).
   constructor; unfold tracked; cbn.
   - rewrite map_map. rewrite (map_ext _ p_id Hid). exact I1.
   - intros q [Hq|Hq]; [|apply I2; now right].
@@ -492,7 +510,7 @@ Proof.
   - exact I4.
   - intros q i [Hq|Hq] Hi Hn; [|eapply I5; eauto; now right].
     apply in_map_iff in Hq. destruct Hq as [p [<- Hp]]. rewrite Hid in Hi. rewrite Hman.
-    rewrite (prereqs_ok_ext i (f p) p) by apply Hsat.
+    rewrite (prereqs_ok_ext i (f p) p (Hsat p) (Hfor p)).
     unfold f in Hn. destruct (mem tid_eqb (p_id p) l) eqn:Em.
     + apply mem_tid_In in Em. specialize (E1 _ Em). unfold chk in E1.
       destruct (find_task (pool s) (p_id p)) as [p0|] eqn:Ef; [|discriminate].
@@ -571,7 +589,8 @@ Qed.
 
 Lemma tick_counters_fields c s p :
   p_id (tick_counters c s p) = p_id p /\ p_sat (tick_counters c s p) = p_sat p /\
-  p_manual (tick_counters c s p) = p_manual p /\ needs_ok (tick_counters c s p) = needs_ok p.
+  p_manual (tick_counters c s p) = p_manual p /\ needs_ok (tick_counters c s p) = needs_ok p /\
+  p_forced (tick_counters c s p) = p_forced p.
 Proof. unfold tick_counters. repeat split. Qed.
 
 Lemma Inv_tick c s snap hl hp s' : Inv c s -> step c s (ETickEnd snap hl hp) = Ok s' -> Inv c s'.
@@ -595,9 +614,9 @@ Proof.
     destruct (tick_counters_fields c s p) as [_ [Hs _]]. rewrite Hs in Hk. eapply I3; [left; eauto|auto].
   - exact I4.
   - intros q i [Hq|[]] Hi Hn. apply in_map_iff in Hq. destruct Hq as [p [<- Hp]].
-    destruct (tick_counters_fields c s p) as [Hi' [Hs [Hm Hno]]].
+    destruct (tick_counters_fields c s p) as [Hi' [Hs [Hm [Hno Hf]]]].
     rewrite Hi' in Hi. rewrite Hm. rewrite Hno in Hn.
-    rewrite (prereqs_ok_ext i _ p Hs). eapply I5; eauto. now left.
+    rewrite (prereqs_ok_ext i _ p Hs Hf). eapply I5; eauto. now left.
   - exact I6.
   - exact I7.
 Qed.
@@ -649,7 +668,7 @@ Proof.
   - intros q Hq. apply in_map_iff in Hq. destruct Hq as [p [<- Hp]].
     destruct (restored_fields p) as [Hid [Hsat Hman]]. rewrite Hid, Hsat, Hman.
     split; [apply I2; now left|]. split; [intros k Hk; eapply I3; [left; eauto|auto]|].
-    intros i Hi Hn. rewrite (prereqs_ok_ext i (restored p) p Hsat).
+    intros i Hi Hn. rewrite (prereqs_ok_ext i (restored p) p Hsat eq_refl).
     eapply I5; [left; eauto|exact Hi|now apply restored_needs_ok].
 Qed.
 
@@ -705,6 +724,109 @@ Proof.
   - intros q Hq. apply I7. eapply In_remove_task; eauto.
 Qed.
 
+Lemma Inv_spawnhist c s t st outs sn s' :
+  Inv c s -> step c s (ESpawnHist t st outs sn) = Ok s' -> Inv c s'.
+Proof.
+  intros I H. cbn [step] in H.
+  destruct (find_task (limbo s) t) as [p|] eqn:Ef; [|discriminate].
+  destruct (negb _) in H; [discriminate|]. injection H as <-.
+  apply find_task_In in Ef. destruct Ef as [Hin Hid].
+  change (with_limbo s (update_task (limbo s) ?x)) with (store s x false).
+  apply (Inv_store_in c s p false); [exact I|exact Hin|reflexivity| |].
+  - cbn. intros k Hk. destruct I as [_ _ I3 _ _ _ _]. eapply I3; [right; eauto|auto].
+  - intros i _ _. now left.
+Qed.
+
+Lemma Inv_transient c s t fl outs s' :
+  Inv c s -> step c s (ETransient t fl outs) = Ok s' -> Inv c s'.
+Proof.
+  intros I H. cbn [step] in H.
+  destruct (find_inst (c_insts c) t) as [i|] eqn:Ei; [|discriminate].
+  destruct (negb (Z.leb (c_icp c) (fst t) && Z.leb (fst t) (c_fcp c))) eqn:Eb; [discriminate|].
+  destruct (existsb _ (pool s)) in H; [discriminate|]. destruct (negb _) in H; [discriminate|].
+  injection H as <-. apply negb_false_iff, andb_true_iff in Eb. destruct Eb as [E1 E2]. apply Z.leb_le in E1, E2.
+  destruct I as [I1 I2 I3 I4 I5 I6 I7].
+  constructor; unfold tracked; cbn.
+  - exact I1.
+  - intros p [Hp|[<-|Hp]]; [apply I2; now left|cbn; split; [eauto|lia]|apply I2; right; eapply In_remove_task; eauto].
+  - intros p k [Hp|[<-|Hp]] Hk; [eapply I3; [left; eauto|auto]|destruct Hk|eapply I3; [right; eapply In_remove_task; eauto|auto]].
+  - exact I4.
+  - intros p i0 [Hp|[<-|Hp]] Hi Hn; [eapply I5; eauto; now left|now left|eapply I5; eauto; right; eapply In_remove_task; eauto].
+  - exact I6.
+  - exact I7.
+Qed.
+
+Lemma Inv_forcesat c s t keys s' : Inv c s -> step c s (EForceSat t keys) = Ok s' -> Inv c s'.
+Proof.
+  intros I H. cbn [step] in H.
+  destruct (lookup s t) as [[p inp]|] eqn:El; [|injection H as <-; exact I].
+  destruct (find_inst (c_insts c) t); [|discriminate]. destruct (negb _) in H; [discriminate|].
+  injection H as <-.
+  pose proof (lookup_spec _ _ _ _ El) as [Hpid Hin].
+  assert (Htp : tracked s p) by (destruct inp; [now left|now right]).
+  eapply Inv_store; eauto.
+  - cbn. intros k Hk. destruct I as [_ _ I3 _ _ _ _]. eapply I3; eauto.
+  - intros i0 Hi0 Hn. destruct I as [_ _ _ _ I5 _ _].
+    destruct (I5 p i0 Htp Hi0 Hn) as [Hm|Hp]; [left; exact Hm|right].
+    eapply prereqs_ok_mono; [| |exact Hp]; cbn; [auto|intros k Hk; apply in_or_app; now right].
+Qed.
+
+Lemma Inv_stateforced c s t st h q r s' : Inv c s -> step c s (EStateForced t st h q r) = Ok s' -> Inv c s'.
+Proof.
+  intros I H. cbn [step] in H.
+  destruct (lookup s t) as [[p inp]|] eqn:El; [|injection H as <-; exact I].
+  destruct (_ || _) in H; [discriminate|]. injection H as <-.
+  pose proof (lookup_spec _ _ _ _ El) as [Hpid Hin].
+  assert (Htp : tracked s p) by (destruct inp; [now left|now right]).
+  apply (Inv_store c s t p inp); [exact I|exact El|reflexivity| |].
+  - cbn. intros k Hk. destruct I as [_ _ I3 _ _ _ _]. eapply I3; eauto.
+  - intros i0 _ _. now left.
+Qed.
+
+Lemma Inv_manual c s t s' : Inv c s -> step c s (EManual t) = Ok s' -> Inv c s'.
+Proof.
+  intros I H. cbn [step] in H.
+  destruct (lookup s t) as [[p inp]|] eqn:El; [|injection H as <-; exact I]. injection H as <-.
+  pose proof (lookup_spec _ _ _ _ El) as [Hpid Hin].
+  assert (Htp : tracked s p) by (destruct inp; [now left|now right]).
+  apply (Inv_store c s t p inp); [exact I|exact El|reflexivity| |].
+  - cbn. intros k Hk. destruct I as [_ _ I3 _ _ _ _]. eapply I3; eauto.
+  - intros i0 _ _. now left.
+Qed.
+
+Lemma Inv_cmdremove c s t s' : Inv c s -> step c s (ECmdRemove t) = Ok s' -> Inv c s'.
+Proof.
+  intros [I1 I2 I3 I4 I5 I6 I7] H. cbn [step] in H. injection H as <-.
+  set (keep := fun k : key => negb (tid_eqb (fst k) t)).
+  set (fix_task := fun p : ptask =>
+        if forallb keep (p_sat p) then p else set_manual (set_sat p (filter keep (p_sat p))) true).
+  assert (Fid : forall p, p_id (fix_task p) = p_id p)
+    by (intros p; unfold fix_task; destruct (forallb keep (p_sat p)); reflexivity).
+  assert (Fsat : forall p k, In k (p_sat (fix_task p)) -> In k (p_sat p) /\ keep k = true).
+  { intros p k. unfold fix_task. destruct (forallb keep (p_sat p)) eqn:E; cbn.
+    - intros Hk. split; [exact Hk|]. rewrite forallb_forall in E. auto.
+    - intros Hk. apply filter_In in Hk. exact Hk. }
+  assert (Fok : forall p i, (needs_ok p = true -> p_manual p = true \/ prereqs_ok i p = true) ->
+                 needs_ok (fix_task p) = true -> p_manual (fix_task p) = true \/ prereqs_ok i (fix_task p) = true).
+  { intros p i Hp. unfold fix_task. destruct (forallb keep (p_sat p)); [exact Hp|intros _; now left]. }
+  assert (Fdone : forall k, In k (done s) -> keep k = true ->
+            In k (filter (fun k => keep k || mem key_eqb k (abs_done s)) (done s))).
+  { intros k Hk Hkeep. apply filter_In. split; [exact Hk|]. now rewrite Hkeep. }
+  constructor; unfold tracked; cbn.
+  - rewrite map_map. rewrite (map_ext _ p_id Fid). exact I1.
+  - intros q [Hq|Hq]; apply in_map_iff in Hq; destruct Hq as [p [<- Hp]]; rewrite Fid; apply I2; [now left|now right].
+  - intros q k [Hq|Hq] Hk; apply in_map_iff in Hq; destruct Hq as [p [<- Hp]];
+      destruct (Fsat p k Hk) as [Hk1 Hk2]; apply Fdone; auto; eapply I3; eauto; [now left|now right].
+  - intros k Hk. apply filter_In. split; [auto|]. apply mem_key_In in Hk. rewrite Hk. apply orb_true_r.
+  - intros q i [Hq|Hq] Hi; apply in_map_iff in Hq; destruct Hq as [p [<- Hp]]; rewrite Fid in Hi;
+      apply Fok; intros Hn; eapply I5; eauto; [now left|now right].
+  - now apply NoDup_filter.
+  - intros q Hq. apply in_map_iff in Hq. destruct Hq as [p [<- Hp]]. destruct (I7 p Hp) as [A [B C]].
+    rewrite Fid. split; [exact A|]. split.
+    + intros k Hk. destruct (Fsat p k Hk) as [Hk1 Hk2]. apply Fdone; auto.
+    + intros i Hi. apply Fok. auto.
+Qed.
+
 (* one accepted step preserves the invariant *)
 Lemma step_Inv c s e s' : Inv c s -> step c s e = Ok s' -> Inv c s'.
 Proof.
@@ -719,7 +841,8 @@ Proof.
   - eapply Inv_submit; eauto.
   - eapply Inv_remove; eauto.
   - cbn in H. destruct (pool s); [injection H as <-; now apply Inv_limit|].
-    destruct (option_eqb Z.eqb l (spec_limit c s)); [injection H as <-; now apply Inv_limit|discriminate].
+    destruct (option_eqb Z.eqb l (spec_limit c s)); [injection H as <-; now apply Inv_limit|].
+    destruct (_ && _) in H; [injection H as <-; now apply Inv_limit|discriminate].
   - eapply Inv_merge; eauto.
   - eapply Inv_abs; eauto.
   - cbn in H. injection H as <-. now apply Inv_fold_add_hold.
@@ -731,6 +854,12 @@ Proof.
   - eapply Inv_restore; eauto.
   - cbn in H. destruct (crash_mode s); [injection H as <-; now apply Inv_with_crash|].
     destruct (saved s); [injection H as <-; exact I|discriminate].
+  - eapply Inv_spawnhist; eauto.
+  - eapply Inv_transient; eauto.
+  - eapply Inv_forcesat; eauto.
+  - eapply Inv_stateforced; eauto.
+  - eapply Inv_manual; eauto.
+  - eapply Inv_cmdremove; eauto.
   - eapply Inv_crash; eauto.
   - cbn in H. destruct (crash_mode s); [|discriminate]. injection H as <-.
     apply Inv_with_stop. now apply Inv_with_hold.
@@ -746,6 +875,8 @@ Proof.
     injection H as <-. exact I.
   - eapply Inv_tick; eauto.
   - cbn in H. repeat (destruct (existsb _ _) in H; [discriminate|]). injection H as <-. now apply Inv_with_stop.
+  - cbn in H. injection H as <-. apply Inv_with_done; [exact I|intros k Hk; now right].
+  - cbn in H. injection H as <-. now apply Inv_add_hold.
 Qed.
 
 Lemma exec_Inv c tr : forall s s', Inv c s -> exec c s tr = Some s' -> Inv c s'.
